@@ -124,6 +124,8 @@ Proof.
   pose proof (eqv_set_reg s1 s2 a false H) as H0.
   destruct (e_kind e a); [apply set_cell_eqv; exact H0| |apply set_cell_eqv; exact H0].
   destruct (ptr s1 a) as [c|]; [|apply res_eqv_same; exact H0].
+  assert (content s2 c = content s1 c) as -> by (symmetry; apply H).
+  destruct (memz a (content s1 c)); [|apply res_eqv_same; exact H0].
   pose proof (remove_agent_eqv _ _ c a H0) as H1.
   destruct (remove_agent (set_reg s1 a false) c a) as [t1 r1].
   destruct (remove_agent (set_reg s2 a false) c a) as [t2 r2].
@@ -248,7 +250,7 @@ Definition a_remove (e : env) (t : astate) (a : Z) : astate * result :=
   | KFixed =>
       match a_loc t a with
       | None => (t0, Ok [])
-      | Some _ => if a_dang t a then (t0, Err E_NOTIN) else (a_set_dang t0 a true, Ok [])
+      | Some _ => if a_dang t a then (t0, Ok []) else (a_set_dang t0 a true, Ok [])   (* a second remove() is a no-op *)
       end
   | _ => (a_set_loc t0 a None, Ok [])
   end.
